@@ -460,3 +460,20 @@ Definition cfg_accepted (cfg : rcfg) : bool :=
 
 Definition in_subnet (s : subnet) (a : N) : Prop :=
   s_base s <= a /\ a < s_base s + 2 ^ (32 - s_ones s).
+
+(* ---------------- a processor serving a sequence of requests ----------------
+   The override configuration is part of the processor's state in the implementation (slices
+   and *net.IPNet values reachable from it); serving a request must not change it.  As a state
+   machine: the state is the configuration, an input is one request with its client address,
+   method and the values of the external functions. *)
+Record input := mkIn { i_req : req; i_addr : option bytes; i_method : N; i_env : env }.
+
+Definition serve (cfg : rcfg) (i : input) : rcfg * result err (resp * fwd) :=
+  (cfg, register_bd cfg (i_req i) (i_addr i) (i_method i) (i_env i)).
+
+Fixpoint serve_all (cfg : rcfg) (l : list input) : rcfg * list (result err (resp * fwd)) :=
+  match l with
+  | [] => (cfg, [])
+  | i :: r => let '(cfg1, o) := serve cfg i in
+              let '(cfg2, os) := serve_all cfg1 r in (cfg2, o :: os)
+  end.
